@@ -87,7 +87,11 @@ func c08Gen(r *rand.Rand, tier string) []Case {
 			case x < 11:
 				c = append(c, fmt.Sprintf("vmon # k=%d path=%s amt=%s", k, pick(r, []string{"evm-value", "delegate-precompile"}), pick(r, amts)))
 			default:
-				c = append(c, fmt.Sprintf("vmon # k=%d path=undelegate amt=%s", k, pick(r, []string{"S/2", "1", "B"})))
+				if r.Intn(3) == 0 {
+					c = append(c, fmt.Sprintf("vclaw # k=%d", k))
+				} else {
+					c = append(c, fmt.Sprintf("vmon # k=%d path=undelegate amt=%s", k, pick(r, []string{"S/2", "1", "B"})))
+				}
 			}
 		}
 		out = append(out, c)
@@ -163,6 +167,35 @@ func c08Exec(c Case) (outs []string, fails []Failure, tags []string) {
 				tags = append(tags, "grant-ok")
 				// free float so that gas for the EVM paths can be paid even after boundary spends drained the account
 				_ = app.BankKeeper.SendCoins(ctx, kr.GetAccAddr(0), kr.GetAccAddr(k), sdk.NewCoins(sdk.NewCoin(denom, sdkmath.NewIntWithDecimal(1, 16))))
+			case "vclaw":
+				out = "skip"
+				va0, ok := app.AccountKeeper.GetAccount(ctx, kr.GetAccAddr(k)).(*vestingtypes.ClawbackVestingAccount)
+				if !ok {
+					return
+				}
+				funder := sdk.MustAccAddressFromBech32(va0.FunderAddress)
+				pre := *va0
+				vestedAtClaw := va0.GetVestedCoins(ctx.BlockTime())
+				cctx, write := ctx.CacheContext()
+				if _, err := app.VestingKeeper.Clawback(sdk.WrapSDKContext(cctx), vestingtypes.NewMsgClawback(funder, kr.GetAccAddr(k), funder)); err != nil {
+					tags = append(tags, "claw-refused")
+					return
+				}
+				write()
+				tags = append(tags, "claw-ok")
+				// vested coins stay under their old lockup: for the rest of the old schedule the account must keep
+				// locked what the old lockup schedule kept locked of the vested part
+				if va2, ok := app.AccountKeeper.GetAccount(nw.GetContext(), kr.GetAccAddr(k)).(*vestingtypes.ClawbackVestingAccount); ok && !vestedAtClaw.IsZero() {
+					for _, dt := range []int64{0, 1, 5, 20, 60} {
+						t := ctx.BlockTime().Add(time.Duration(dt) * time.Second)
+						want := pre.GetUnlockedCoins(t).Min(vestedAtClaw)
+						got := va2.GetUnlockedCoins(t)
+						if !got.IsEqual(want) && !(got.IsZero() && want.IsZero()) {
+							fl("C08:clawback-unlocks-vested-early", fmt.Sprintf("after a clawback the account reports %s unlocked at +%ds, min(old lockup, vested) = %s", got, dt, want))
+							break
+						}
+					}
+				}
 			case "vtime":
 				out = "skip"
 				if err := nw.NextBlockAfter(time.Duration(vmIdx(kv["dt"])) * time.Second); err != nil {
